@@ -181,6 +181,30 @@ def run(ctx, chk):
     sigs = {s["name"]: s for s in binm["sigs"]}
     fns = {n: P.find("bin", "driver::interrupts::" + n) for n in ("int_13", "int_21")}
     drv = P.find("bin", "driver::driver::CMDDriver::run")
+    if drv is not None and any(f is None for f in fns.values()):
+        # a renamed service: it is the local function that the driver's arm for that interrupt number calls with the machine
+        for nm, num in (("int_13", 0x10), ("int_21", 0x21)):
+            if fns[nm] is not None:
+                continue
+            cfg_ = M.CFG(drv)
+            for sb_, bb in enumerate(drv["blocks"]):
+                t_ = M.term(bb)
+                if t_[0] == "switch" and t_[1][0] in ("copy", "move") and (t_[1][1].get("ty") == "u8") and any(v == num for v, _ in t_[2]) and any(v == 0 for v, _ in t_[2]):
+                    tgt_ = next(tg for v, tg in t_[2] if v == num)
+                    others_ = set()
+                    for v, tg in t_[2]:
+                        if v != num:
+                            others_ |= cfg_.reachable_from(tg, avoid={sb_})
+                    cands_ = []
+                    for b_ in cfg_.reachable_from(tgt_, avoid={sb_}) - others_:
+                        tt_ = M.term(drv["blocks"][b_])
+                        if tt_[0] == "call" and tt_[1].get("local"):
+                            g_ = P.fns.get(tt_[1].get("id"))
+                            if g_ is not None and g_["argc"] >= 2 and "VM" in (g_["locals"][1]["ty"] or "") and "user_interface" not in g_["name"]:
+                                cands_.append(g_)
+                    if len({g_["name"] for g_ in cands_}) == 1:
+                        fns[nm] = cands_[0]
+    svc_name = {n: (f["name"].split("::")[-1] if f is not None else n) for n, f in fns.items()}
     for n, f in fns.items():
         if f is None:
             chk.undecided_("C18.R3", n, "service function not found")
@@ -302,7 +326,7 @@ def run(ctx, chk):
                     else:
                         chk.violation("C18.R5", unit, "no-string-read", "AH=13h reads no memory", where)
     # int_13 cannot modify the machine at all
-    s13 = sigs.get("driver::interrupts::int_13")
+    s13 = sigs.get(fns["int_13"]["name"])
     if s13 and s13["inputs"] and s13["inputs"][0].startswith("&") and not s13["inputs"][0].startswith("&mut"):
         chk.ok("C18.R4", "int_13:sig", f"takes {s13['inputs'][0]}: no register, flag or memory byte can change (VM is Freeze, no unsafe)")
     else:
@@ -444,7 +468,7 @@ def run(ctx, chk):
                 if v != num:
                     others |= cfgd.reachable_from(tg, avoid={headd})
             arm = cfgd.reachable_from(tgt, avoid={headd}) - others
-            svc_calls = [b for b in arm if M.term(drv["blocks"][b])[0] == "call" and (M.term(drv["blocks"][b])[1].get("def") or "").endswith("::" + svc)]
+            svc_calls = [b for b in arm if M.term(drv["blocks"][b])[0] == "call" and (M.term(drv["blocks"][b])[1].get("def") or "").endswith("::" + svc_name[svc])]
             if not svc_calls:
                 chk.violation("C18.R3", "driver", f"{svc}-not-called", f"the INT {num:02X}h arm never calls {svc}", wd)
                 continue
